@@ -480,6 +480,36 @@ theorem enterDirect_low (s0 : St) (x0 : Exit) (hs0 : inLoop s0 = false) (B : Bnd
     exact raise_low_of s0 x0 hs0 B st Y hi true _ (by simp [truncate]) (by simp [truncate])
       (by simp [truncate]; omega) (by simp [truncate]) (by simp [truncate]) Y' hc'
 
+theorem enterChecked_low (s0 : St) (x0 : Exit) (hs0 : inLoop s0 = false) (B : Bnd) (st : St)
+    (Y : List Cont) (hi : Inside s0 x0 B st Y) (pre args : Nat) (c : Callee)
+    (Y' : List Cont) (h' : Inv s0 (.loop x0) (enterChecked pre args c st) Y') :
+    Low B (.loop x0) s0.vm.stack (enterChecked pre args c st) Y' := by
+  unfold enterChecked at h' ⊢
+  split at h' <;> rename_i hf
+  · rw [if_pos hf]; exact enterWith_low s0 x0 hs0 B st Y hi true pre args c Y' h'
+  · rw [if_neg hf]
+    exact raise_low_of s0 x0 hs0 B st Y hi true _ rfl rfl hi.regs rfl rfl Y' h'.conts
+
+theorem enterOpChecked_low (s0 : St) (x0 : Exit) (hs0 : inLoop s0 = false) (B : Bnd) (st : St)
+    (Y : List Cont) (hi : Inside s0 x0 B st Y) (pre args : Nat) (c : Callee)
+    (Y' : List Cont) (h' : Inv s0 (.loop x0) (enterOpChecked pre args c st) Y') :
+    Low B (.loop x0) s0.vm.stack (enterOpChecked pre args c st) Y' := by
+  unfold enterOpChecked at h' ⊢
+  split at h' <;> rename_i hf
+  · rw [if_pos hf]; exact enterWith_low s0 x0 hs0 B st Y hi true pre args c Y' h'
+  · rw [if_neg hf]
+    exact raise_low_of s0 x0 hs0 B st Y hi true _ rfl rfl hi.regs rfl rfl Y' h'.conts
+
+theorem enterDirectChecked_low (s0 : St) (x0 : Exit) (hs0 : inLoop s0 = false) (B : Bnd) (st : St)
+    (Y : List Cont) (hi : Inside s0 x0 B st Y) (pre : Nat) (ok : Bool)
+    (Y' : List Cont) (h' : Inv s0 (.loop x0) (enterDirectChecked pre ok st) Y') :
+    Low B (.loop x0) s0.vm.stack (enterDirectChecked pre ok st) Y' := by
+  unfold enterDirectChecked at h' ⊢
+  split at h' <;> rename_i hf
+  · rw [if_pos hf]; exact enterDirect_low s0 x0 hs0 B st Y hi pre ok Y' h'
+  · rw [if_neg hf]
+    exact raise_low_of s0 x0 hs0 B st Y hi true _ rfl rfl hi.regs rfl rfl Y' h'.conts
+
 theorem nested_low (s0 : St) (x0 : Exit) (hs0 : inLoop s0 = false) (B : Bnd) (st : St)
     (Y : List Cont) (hi : Inside s0 x0 B st Y) (args a : Nat)
     (Y' : List Cont) (h' : Inv s0 (.loop x0) (nested args a st) Y') :
@@ -542,9 +572,9 @@ theorem step_low_loop (s0 : St) (x0 : Exit) (hs0 : inLoop s0 = false) (B : Bnd) 
       have : f :: rest = (y :: ys) ++ s0.vm.stack := by rw [← hstk, hX]
       rw [hy]; exact (hge _ this).1 y (by simp)
   cases ev with
-  | enter pre args c => exact enterWith_low s0 x0 hs0 B st _ hi true pre args c Y' h'
-  | enterOp pre args c => exact enterWith_low s0 x0 hs0 B st _ hi true pre args c Y' h'
-  | enterDirect pre ok => exact enterDirect_low s0 x0 hs0 B st _ hi pre ok Y' h'
+  | enter pre args c => exact enterChecked_low s0 x0 hs0 B st _ hi pre args c Y' h'
+  | enterOp pre args c => exact enterOpChecked_low s0 x0 hs0 B st _ hi pre args c Y' h'
+  | enterDirect pre ok => exact enterDirectChecked_low s0 x0 hs0 B st _ hi pre ok Y' h'
   | nested args a => exact nested_low s0 x0 hs0 B st _ hi args a Y' h'
   | newFrame n =>
     apply low_mk _ _ _ _ _ (ne_of_conts s0 _ Y' h'.conts (by simpa [step, hin] using hlen))
@@ -790,9 +820,9 @@ theorem step_low_native (s0 : St) (x0 : Exit) (hs0 : inLoop s0 = false) (B : Bnd
     rw [← getLast_cons_ne (Cont.native fb host) Y1 hY1]; exact h.lastc (by simp)
   have hpeel : peelAll Y1 st.vm.stack = some s0.vm.stack := by simpa [peelAll] using h.peel
   cases ev with
-  | enter pre args c => exact enterWith_low s0 x0 hs0 B st _ hi true pre args c Y' h'
-  | enterOp pre args c => exact enterWith_low s0 x0 hs0 B st _ hi true pre args c Y' h'
-  | enterDirect pre ok => exact enterDirect_low s0 x0 hs0 B st _ hi pre ok Y' h'
+  | enter pre args c => exact enterChecked_low s0 x0 hs0 B st _ hi pre args c Y' h'
+  | enterOp pre args c => exact enterOpChecked_low s0 x0 hs0 B st _ hi pre args c Y' h'
+  | enterDirect pre ok => exact enterDirectChecked_low s0 x0 hs0 B st _ hi pre ok Y' h'
   | nested args a => exact nested_low s0 x0 hs0 B st _ hi args a Y' h'
   | nativeRet ok =>
     have hn := nativeOk_fields fb st.vm
@@ -959,9 +989,9 @@ theorem step_low_importing (s0 : St) (x0 : Exit) (hs0 : inLoop s0 = false) (B : 
     rw [← getLast_cons_ne (Cont.importing m saved) Y1 hY1]; exact h.lastc (by simp)
   have hpeel : peelAll Y1 st.vm.stack = some s0.vm.stack := by simpa [peelAll] using h.peel
   cases ev with
-  | enter pre args c => exact enterWith_low s0 x0 hs0 B st _ hi true pre args c Y' h'
-  | enterOp pre args c => exact enterWith_low s0 x0 hs0 B st _ hi true pre args c Y' h'
-  | enterDirect pre ok => exact enterDirect_low s0 x0 hs0 B st _ hi pre ok Y' h'
+  | enter pre args c => exact enterChecked_low s0 x0 hs0 B st _ hi pre args c Y' h'
+  | enterOp pre args c => exact enterOpChecked_low s0 x0 hs0 B st _ hi pre args c Y' h'
+  | enterDirect pre ok => exact enterDirectChecked_low s0 x0 hs0 B st _ hi pre ok Y' h'
   | nested args a => exact nested_low s0 x0 hs0 B st _ hi args a Y' h'
   | importEnd ok =>
     cases ok with
